@@ -931,6 +931,140 @@ static void void_family(vr::Ctx& ctx)
     ctx.sample("{\"void_source_chains\":" + std::to_string(n) + "}");
 }
 
+// ---- payload family (round 6): values that can be moved from -----------------------------------------------------------
+// A Promise<std::string> / Promise<std::vector<int>> fulfilled with a value that does not fit a small-string buffer; 0..2
+// continuations attached before the fulfilment and 1..2 after it (each taking its argument by value or by const reference and
+// returning a value, nothing or a promise), optionally an all-of formed over the fulfilled promise: every continuation runs
+// once and sees the produced value, whatever ran before it.
+template <typename T>
+static std::string payload_str(const T& v);
+template <>
+std::string payload_str(const std::string& v) { return v; }
+template <>
+std::string payload_str(const std::vector<int>& v)
+{
+    std::string o;
+    for (int x : v)
+        o += std::to_string(x) + ",";
+    return o;
+}
+template <typename T>
+static void payload_family(vr::Ctx& ctx, const T& original, const char* tname)
+{
+    static const char* kKind[] = { "by-value->value", "by-value->nothing", "const-ref->value", "by-value->promise" };
+    const std::string want     = payload_str(original);
+    uint64_t n = 0;
+    // sequences of kinds: index 0 = none, 1..4 = one continuation, 5..20 = two
+    auto kinds_of = [](int code) {
+        std::vector<int> k;
+        if (code >= 1 && code <= 4)
+            k = { code - 1 };
+        else if (code >= 5)
+            k = { (code - 5) / 4, (code - 5) % 4 };
+        return k;
+    };
+    for (int pre = 0; pre < 2; ++pre)
+        for (int before = 0; before <= 20; ++before)
+            for (int after = 1; after <= 20; ++after)
+                for (int all = 0; all < 2; ++all)
+                {
+                    std::vector<int> kb = kinds_of(before), ka = kinds_of(after);
+                    std::string what = std::string("Promise<") + tname + "> " + (pre ? "already fulfilled" : "fulfilled through its resolver") + "; before:";
+                    for (int k : kb)
+                        what += std::string(" ") + kKind[k];
+                    what += "; after:";
+                    for (int k : ka)
+                        what += std::string(" ") + kKind[k];
+                    if (all)
+                        what += "; whenAll(p, 7) formed after the fulfilment";
+                    ctx.note(what);
+                    struct Seen
+                    {
+                        int runs = 0, rejs = 0;
+                        std::string val;
+                    };
+                    std::vector<Seen> seen(kb.size() + ka.size());
+                    std::vector<Seen> derived(kb.size() + ka.size()); // what the derived promise of each continuation delivered
+                    Seen allSeen;
+                    std::string escaped;
+                    try
+                    {
+                        std::optional<Async::Resolver> res;
+                        std::optional<Async::Rejection> rej;
+                        Async::Promise<T> p = pre ? Async::Promise<T>::resolved(T(original)) : Async::Promise<T>([&](Async::Resolver& r, Async::Rejection& j) { res.emplace(std::move(r)); rej.emplace(std::move(j)); });
+                        auto attach = [&](int kind, size_t slot) {
+                            Seen* s  = &seen[slot];
+                            Seen* ds = &derived[slot];
+                            auto onRej = [s](std::exception_ptr) { s->rejs++; };
+                            switch (kind)
+                            {
+                            case 0:
+                                p.then([s](T v) { s->runs++; s->val = payload_str(v); return (int)payload_str(v).size(); }, onRej)
+                                    .then([ds](int x) { ds->runs++; ds->val = std::to_string(x); }, [ds](std::exception_ptr) { ds->rejs++; });
+                                break;
+                            case 1:
+                                p.then([s](T v) { s->runs++; s->val = payload_str(v); }, onRej);
+                                break;
+                            case 2:
+                                p.then([s](const T& v) { s->runs++; s->val = payload_str(v); return (int)payload_str(v).size(); }, onRej)
+                                    .then([ds](int x) { ds->runs++; ds->val = std::to_string(x); }, [ds](std::exception_ptr) { ds->rejs++; });
+                                break;
+                            default:
+                                p.then([s](T v) { s->runs++; s->val = payload_str(v); return Async::Promise<T>::resolved(std::move(v)); }, onRej)
+                                    .then([ds](const T& x) { ds->runs++; ds->val = payload_str(x); }, [ds](std::exception_ptr) { ds->rejs++; });
+                            }
+                        };
+                        for (size_t i = 0; i < kb.size(); ++i)
+                            attach(kb[i], i);
+                        if (!pre)
+                            (*res)(T(original));
+                        for (size_t i = 0; i < ka.size(); ++i)
+                            attach(ka[i], kb.size() + i);
+                        auto seven = Async::Promise<int>::resolved(7);
+                        if (all)
+                            Async::whenAll(p, seven)
+                                .then([&](const std::tuple<T, int>& t) { allSeen.runs++; allSeen.val = payload_str(std::get<0>(t)) + "|" + std::to_string(std::get<1>(t)); },
+                                      [&](std::exception_ptr) { allSeen.rejs++; });
+                    }
+                    catch (const std::exception& e)
+                    {
+                        escaped = e.what();
+                    }
+                    ++n;
+                    ++gPrograms;
+                    std::string obs, sig;
+                    for (size_t i = 0; i < seen.size(); ++i)
+                    {
+                        int kind = i < kb.size() ? kb[i] : ka[i - kb.size()];
+                        obs += "[" + std::to_string(i) + ":" + kKind[kind] + " runs=" + std::to_string(seen[i].runs) + " saw=" + vr::show(seen[i].val.substr(0, 48)) + " derived_runs=" + std::to_string(derived[i].runs) + " derived=" + vr::show(derived[i].val.substr(0, 48)) + "] ";
+                        if (seen[i].runs != 1 || seen[i].rejs != 0)
+                            sig = "c11:payload:continuation-not-exactly-once";
+                        else if (seen[i].val != want)
+                            sig = std::string("c11:payload:continuation-saw-another-value:") + (i < kb.size() ? "attached-before" : "attached-after");
+                        else if (kind != 1)
+                        {
+                            std::string dw = kind == 3 ? want : std::to_string(want.size());
+                            if (derived[i].runs != 1 || derived[i].val != dw)
+                                sig = "c11:payload:derived-promise-delivered-another-value";
+                        }
+                    }
+                    if (all && sig.empty() && (allSeen.runs != 1 || allSeen.val != want + "|7"))
+                        sig = "c11:payload:all-of-over-a-fulfilled-promise-delivered-another-value";
+                    if (!escaped.empty())
+                        sig = "c11:payload:exception-escapes";
+                    if (!sig.empty())
+                        ctx.violation(sig, "{\"program\":" + vr::jstr(what) + ",\"observed\":" + vr::jstr(obs) + ",\"all_of\":" + vr::jstr(allSeen.val.substr(0, 60)) + (escaped.empty() ? "" : ",\"exception\":" + vr::jstr(escaped)) + "}");
+                    ctx.outcome(std::string("payload ") + tname + ": " + (sig.empty() ? "every continuation saw the value" : "differs"));
+                    ctx.nontrivial(vr::hash_str(what));
+                    ctx.state(vr::hash_str(what + obs));
+                }
+    ctx.count("executions", n);
+    ctx.count("evaluations", n);
+    ctx.count("transitions", n * 5);
+    ctx.sample(std::string("{\"payload_programs_") + tname + "\":" + std::to_string(n) + "}");
+    ctx.poll_reports();
+}
+
 // ---- ownership family: fire-and-forget chains ---------------------------------------------------------------------------
 // src.then(f, Throw).then(g, h) where the program keeps or drops each of the three promise objects (source, first derived,
 // second derived) right after building the chain, discards or keeps the source's resolver pair after using it, and settles
@@ -1083,7 +1217,17 @@ int main(int argc, char** argv)
         printf("%zu prefixes of length %d\n", gPrefixes.size(), pre);
         return 0;
     }
-    return vr::run(opt, gPrefixes.size() + gSweeps.size() + 3, [](uint64_t idx, vr::Ctx& ctx) {
+    return vr::run(opt, gPrefixes.size() + gSweeps.size() + 5, [](uint64_t idx, vr::Ctx& ctx) {
+        if (idx == gPrefixes.size() + gSweeps.size() + 3)
+        {
+            payload_family<std::string>(ctx, std::string("a value that does not fit a small-string buffer: 0123456789"), "string");
+            return;
+        }
+        if (idx == gPrefixes.size() + gSweeps.size() + 4)
+        {
+            payload_family<std::vector<int>>(ctx, std::vector<int> { 3, 1, 4, 1, 5, 9, 2, 6 }, "vector");
+            return;
+        }
         if (idx == gPrefixes.size() + gSweeps.size())
         {
             void_family(ctx);
